@@ -42,7 +42,7 @@ ASSUMPTIONS = [
     "State.notify_var_last (last notified values) is not part of the census; empty per-variable tables count as absent",
 ]
 TIERS = {
-    "quick": {"runs": 220, "chunk": 8, "max_points": 30, "chunk_timeout": 900},
+    "quick": {"runs": 320, "chunk": 10, "max_points": 30, "chunk_timeout": 900},
     "thorough": {"runs": 4000, "chunk": 40, "max_points": 100000, "chunk_timeout": 3600},
 }
 REACH_PROBES = ["cancel_while_subscribed", "timeout_fired", "time_trigger_fired", "event_returned", "state_returned",
@@ -296,8 +296,9 @@ def execute(scn: dict, k_cancel: int | None) -> dict:
 
 
 # ------------------------------------------------------------------ reference
-def expected(scn: dict, obs: dict):
-    """Return (list of acceptable outcomes, dontcare flag). An outcome is (t, kind, payload-or-None)."""
+def expected(scn: dict, obs: dict, dev: frozenset = frozenset()):
+    """Return (list of acceptable outcomes, dontcare flag). An outcome is (t, kind, payload-or-None).
+    ``dev``: explanatory deviations of the state part (sim.holdmodel.DEVIATIONS), used only for labelling."""
     spec = scn["spec"]
     w = obs["w"]
     t0 = obs["t0"]
@@ -328,7 +329,8 @@ def expected(scn: dict, obs: dict):
                 evals.append({"t": s["vt"], "truth": op["s"] == "1", "args": args})
                 cur = op["s"]
         check_now = True if cond["check_now"] is None else cond["check_now"]
-        fires = timeline(t0, val == "1", evals, check_now, cond["hold"], cond["hold_false"], obs["end"], first_only=True)
+        fires = timeline(t0, val == "1", evals, check_now, cond["hold"], cond["hold_false"], obs["end"], first_only=True,
+                         dev=dev)
         if cond["hold"]:
             w.probe("hold_in_wait")
         for f in fires:
@@ -393,6 +395,55 @@ def expected(scn: dict, obs: dict):
     return ok, False
 
 
+def _outcome(scn: dict, obs: dict, rets: list, excs: list, kinds: list, dev: frozenset) -> list:
+    """Mismatches between the observed return and the reference first qualifying occurrence."""
+    w = obs["w"]
+    out = []
+    exp, dontcare = expected(scn, obs, dev)
+    slack = 0.08 + w.cfg["timer_late_ms"] * 1e-3 + 80 * w.loop.cost
+    if dontcare:
+        return out
+    if not exp:
+        if rets or excs:
+            out.append(("C15.unexpected_return", {"kinds": "+".join(kinds)},
+                        f"{_call_src(scn['spec'])} returned {[m['kw'] for m in rets + excs]} although no condition "
+                        f"occurred after the call"))
+        return out
+    if len(rets) != 1:
+        out.append(("C15.no_return", {"want": exp[0][1], "timeout": scn["spec"]["timeout"] == 0 and "zero" or "other"},
+                    f"{_call_src(scn['spec'])} returned {len(rets)} times (exceptions {[m['kw'] for m in excs]}); expected "
+                    f"{exp[0][1]} at +{exp[0][0] - obs['t0']:.3f}s"))
+        return out
+    got = rets[0]
+    got_kw = {k: v for k, v in got["kw"].items() if k != "context"}
+    tt = got_kw.get("trigger_type")
+    match = next((cand for cand in exp if cand[1] == tt), None)
+    if not dev:
+        w.probe({"timeout": "timeout_fired", "time": "time_trigger_fired", "event": "event_returned",
+                 "state": "state_returned", "mqtt": "mqtt_returned", "webhook": "webhook_returned",
+                 "none": "none_returned"}.get(tt, "other_returned"))
+    if match is None:
+        out.append(("C15.wrong_trigger", {"want": exp[0][1], "got": str(tt)},
+                    f"{_call_src(scn['spec'])} returned {got_kw} at +{got['vt'] - obs['t0']:.3f}s; the first "
+                    f"qualifying occurrence is {exp[0][1]} at +{exp[0][0] - obs['t0']:.3f}s"))
+        return out
+    dtm = got["vt"] - match[0]
+    if not -1e-6 <= dtm <= slack:
+        out.append(("C15.return_time", {"want": match[1]},
+                    f"{_call_src(scn['spec'])} returned {tt} at +{got['vt'] - obs['t0']:.3f}s, expected at "
+                    f"+{match[0] - obs['t0']:.3f}s"))
+    if match[2] is not None and got_kw != w.norm(match[2]):
+        out.append(("C15.return_payload", {"want": match[1]},
+                    f"{_call_src(scn['spec'])} returned {got_kw}, expected {w.norm(match[2])}"))
+    if match[1] == "time":
+        ttime = got["raw_kw"].get("trigger_time")
+        want_wall = obs["wall0"] + dt.timedelta(seconds=match[0] - obs["t0"])
+        if not isinstance(ttime, dt.datetime) or abs((ttime - want_wall).total_seconds()) > 0.2:
+            out.append(("C15.return_payload", {"want": "time"},
+                        f"trigger_time {ttime!r} is not the denoted instant {want_wall!r}"))
+    return out
+
+
 def _short(val, other):
     """Only the entries of a census table that differ from the other side."""
     if isinstance(val, dict) and isinstance(other, dict):
@@ -420,50 +471,32 @@ def judge(scn: dict, obs: dict, sub: str) -> list:
         exit_path = "exception"
     # ---- outcome (fault-free path only)
     if not landed:
-        exp, dontcare = expected(scn, obs)
-        slack = 0.08 + w.cfg["timer_late_ms"] * 1e-3 + 80 * w.loop.cost
-        if not dontcare:
-            if not exp:
-                if rets or excs:
-                    viol("C15.unexpected_return", {"kinds": "+".join(kinds)},
-                         f"{_call_src(scn['spec'])} returned {[m['kw'] for m in rets + excs]} although no condition "
-                         f"occurred after the call")
-            elif len(rets) != 1:
-                viol("C15.no_return", {"want": exp[0][1], "timeout": scn["spec"]["timeout"] == 0 and "zero" or "other"},
-                     f"{_call_src(scn['spec'])} returned {len(rets)} times (exceptions {[m['kw'] for m in excs]}); expected "
-                     f"{exp[0][1]} at +{exp[0][0] - obs['t0']:.3f}s")
+        found = _outcome(scn, obs, rets, excs, kinds, frozenset())
+        if found:
+            # label: does an already recorded deviation of the state part (C05 findings) explain it?
+            import itertools
+
+            from ..holdmodel import DEVIATIONS
+
+            if sub == "new":
+                cands = [d for d in DEVIATIONS if d != "wait_until_init_false_does_not_start_false_period"]
             else:
-                got = rets[0]
-                got_kw = {k: v for k, v in got["kw"].items() if k != "context"}
-                tt = got_kw.get("trigger_type")
-                match = None
-                for cand in exp:
-                    if cand[1] == tt or (cand[1] in ("event", "mqtt", "webhook", "state", "time", "timeout", "none")
-                                         and cand[1] == tt):
-                        match = cand
+                cands = ["wait_until_init_false_does_not_start_false_period"]
+            why = "unexplained"
+            if "state" in kinds:
+                for size in range(1, len(cands) + 1):
+                    hit = None
+                    for combo in itertools.combinations(cands, size):
+                        if not _outcome(scn, obs, rets, excs, kinds, frozenset(combo)):
+                            hit = combo
+                            break
+                    if hit:
+                        why = "+".join(hit)
                         break
-                w.probe({"timeout": "timeout_fired", "time": "time_trigger_fired", "event": "event_returned",
-                         "state": "state_returned", "mqtt": "mqtt_returned", "webhook": "webhook_returned",
-                         "none": "none_returned"}.get(tt, "other_returned"))
-                if match is None:
-                    viol("C15.wrong_trigger", {"want": exp[0][1], "got": str(tt)},
-                         f"{_call_src(scn['spec'])} returned {got_kw} at +{got['vt'] - obs['t0']:.3f}s; the first "
-                         f"qualifying occurrence is {exp[0][1]} at +{exp[0][0] - obs['t0']:.3f}s")
-                else:
-                    dtm = got["vt"] - match[0]
-                    if not -1e-6 <= dtm <= slack:
-                        viol("C15.return_time", {"want": match[1]},
-                             f"{_call_src(scn['spec'])} returned {tt} at +{got['vt'] - obs['t0']:.3f}s, expected at "
-                             f"+{match[0] - obs['t0']:.3f}s")
-                    if match[2] is not None and got_kw != w.norm(match[2]):
-                        viol("C15.return_payload", {"want": match[1]},
-                             f"{_call_src(scn['spec'])} returned {got_kw}, expected {w.norm(match[2])}")
-                    if match[1] == "time":
-                        ttime = got["raw_kw"].get("trigger_time")
-                        want_wall = obs["wall0"] + dt.timedelta(seconds=match[0] - obs["t0"])
-                        if not isinstance(ttime, dt.datetime) or abs((ttime - want_wall).total_seconds()) > 0.2:
-                            viol("C15.return_payload", {"want": "time"},
-                                 f"trigger_time {ttime!r} is not the denoted instant {want_wall!r}")
+            for cls, sig, detail in found:
+                if why != "unexplained":
+                    sig = {"why": why}
+                viol(cls, sig, detail)
     # ---- the task must be over and everything released
     if not obs["finished"]:
         exp, dontcare = expected(scn, obs) if not landed else ([], True)
